@@ -11,6 +11,7 @@ oracle (search): bounds / symmetry / self-coherence / Hermitian / |coherency|^2 
 """
 import json
 import math
+import os
 
 import numpy as np
 
@@ -71,9 +72,11 @@ def make_signals(d):
     return x[:M].copy(), x[M].copy()
 
 
-def gen_input(rng, quick, big=False, kind=None):
+def gen_input(rng, quick, big=False, kind=None, M=None):
     meth = kind or rng.choice(["welch", "welch", "welch", "mt", "mt_adaptive", "periodogram"])
-    if big:
+    if M is not None:
+        pass
+    elif big:
         M = rng.choice([2, 3])
     elif meth == "welch" or not quick:
         M = rng.choice([2, 3, 3, 4, 5])
@@ -126,6 +129,22 @@ def gen_input(rng, quick, big=False, kind=None):
         ub = round(lb + rng.uniform(0.2, 0.5) * nyq, 4)
     if rng.random() < 0.2:
         lb = 0.0
+    # band edges exactly on the frequency grid (resolved against the implementation's grid at run time)
+    if rng.random() < 0.5:
+        nf = (method.get("NFFT", N)) // 2 + 1
+        kl = rng.randint(0, max(0, nf // 2 - 1))
+        ku = rng.randint(kl + 2, nf - 1) if kl + 2 <= nf - 1 else nf - 1
+        r2 = rng.random()
+        if r2 < 0.4:
+            lb, ub = ["grid", kl], ["grid", ku]
+        elif r2 < 0.7:
+            ub = ["grid", ku]
+            if not isinstance(lb, list) and lb and lb >= ku * Fs / (2.0 * (nf - 1)):
+                lb = 0
+        else:
+            lb = ["grid", kl]
+            if ub is not None:
+                ub = None
     return {"seed": rng.randrange(10 ** 6), "M": M, "N": N, "method": method, "mix": mix, "tone": tone,
             "scale": scale, "gains": gains, "lb": lb, "ub": ub, "kind": meth, "big": big}
 
@@ -149,11 +168,16 @@ class Run:
         import nitime.utils as utils
         from nitime.timeseries import TimeSeries
         from nitime.analysis import CoherenceAnalyzer, MTCoherenceAnalyzer
-        self.d = d
+        self.d = self.d0 = d
         x, r = make_signals(d)
         self.x, self.r = x, r
         m = d["method"]
         self.f, self.S = tsa.get_spectra(x, dict(m))
+        d = dict(d)
+        for key in ("lb", "ub"):       # ["grid", k] -> the k-th grid frequency
+            if isinstance(d[key], list):
+                d[key] = float(self.f[min(d[key][1], len(self.f) - 1)])
+        self.d = d
         self.fn = {}
         f, self.fn["coherence"] = coh.coherence(x, dict(m))
         f, self.fn["coherency"] = coh.coherency(x, dict(m))
@@ -360,6 +384,24 @@ def oracle(R):
         check_coh("coherence_bavg", fn["coherence_bavg"])
     elif R.bounds[1] - max(R.bounds[0], 1 if d["lb"] == 0 else 0) > 0:
         fail("coherence_bavg", "finite", "non-finite band average on a non-empty band")
+    # the band: exactly the grid frequencies in [lb, ub] (DC left out when lb == 0)
+    S = np.asarray(R.S)
+    fgrid = np.asarray(R.f)
+    sel = fgrid >= d["lb"]
+    if d["ub"] is not None:
+        sel &= fgrid <= d["ub"]
+    if d["lb"] == 0:
+        sel[0] = False
+    if sel.any() and not _bad(fn["coherence_bavg"]):
+        want = np.zeros((M, M))
+        for i in range(M):
+            for j in range(M):
+                a, b = min(i, j), max(i, j)
+                want[i, j] = abs(S[a, b][sel].sum()) ** 2 / (S[a, a][sel].real.sum() * S[b, b][sel].real.sum())
+        e = np.abs(np.asarray(fn["coherence_bavg"]) - want).max()
+        if e > TOL:
+            fail("coherence_bavg", "band", "band-averaged coherence is not the average over the grid frequencies in [lb, ub]",
+                 float(e), 0)
     cb = np.asarray(fn["coherency_bavg"])
     if not _bad(cb):
         check_cohy("coherency_bavg", cb, None)
@@ -515,9 +557,13 @@ def run(ctx):
     core.import_nitime()
     ctx.check_props()
     # quick: 3 corpus inputs + 9 Welch + 2 multitaper + 2 adaptive multitaper + 2 periodogram
-    kinds = (["welch"] * 9 + ["mt", "mt_adaptive", "periodogram"] * 2) if ctx.quick else [None] * 160
-    inputs = corpus_inputs() + [gen_input(ctx.rng, ctx.quick, kind=k) for k in kinds]
-    big = [gen_input(ctx.rng, ctx.quick, big=True) for _ in range(ctx.scale(6, 40))]
+    kinds = (["welch"] * 9 + ["mt", "mt_adaptive", "periodogram"] * 2) if ctx.quick else [None] * 110
+    if os.environ.get("C08_DEV_KINDS") is not None:      # development aid: a reduced run
+        kinds = [k for k in os.environ["C08_DEV_KINDS"].split(",") if k]
+    chans = [2, 3, 4, 5, 3, 2, 4, 5, 3] + [None] * len(kinds)     # quick: every channel count occurs
+    inputs = corpus_inputs() + [gen_input(ctx.rng, ctx.quick, kind=k, M=(chans[n] if ctx.quick else None))
+                                for n, k in enumerate(kinds)]
+    big = [gen_input(ctx.rng, ctx.quick, big=True) for _ in range(ctx.scale(8, 60))]
     cases, runs = [], []
     gram_n = gram_bad = 0
     for d in inputs:
@@ -549,14 +595,14 @@ def run(ctx):
                                  replay={"entry_point": "run"}), Case("", {"input": d}, "exception"))
     nf = 0
     for R in runs:
-        key = json.dumps(R.d, sort_keys=True)
+        key = json.dumps(R.d0, sort_keys=True)
         seen = set()
         for f in oracle(R):
             if f.key in seen:
                 continue
             seen.add(f.key)
             f.replay = dict(f.replay or {}, model_disagrees=bad_inputs.get(key, []))
-            if ctx.report_fail(f, Case("", {"input": R.d, "entry": f.replay.get("entry_point")}, "")):
+            if ctx.report_fail(f, Case("", {"input": R.d0, "entry": f.replay.get("entry_point")}, "")):
                 nf += 1
     if gram_bad:
         ctx.obligation("G", "estimator contract: mlab.csd is a positively scaled Gram form", False,
